@@ -181,3 +181,34 @@ Definition pack (ws : list N) : N := fold_left (fun e v => e * 2048 + v) ws 0.
 (** the entropy and checksum nibble a 12-index phrase denotes *)
 Definition entropy_of (ws : list N) : N := pack (firstn 11 ws) * 128 + nth 11 ws 0 / 16.
 Definition nibble_of (ws : list N) : N := nth 11 ws 0 mod 16.
+
+(** ** What can be wrong with a phrase
+
+    The property fixes *that* a malformed phrase is rejected, not *which* of several
+    applicable errors is reported nor in which order the validations run.  [defects] is the
+    set of defects of a token list, independent of any order of evaluation; the theorems
+    (SeedProofs.v) say that the decoder rejects exactly the phrases with a non-empty set and
+    that the error it reports names a member of the set.  The correspondence check compares
+    accept / reject (and the entropy on accept) only. *)
+Inductive defect :=
+| WrongCount      (* not exactly twelve words *)
+| UnknownWord     (* some token is not in the word list *)
+| BadChecksum.    (* twelve list words whose last four bits are not the checksum of the entropy they denote *)
+
+Definition defects (cks : N -> N -> N) (ts : list token) : list defect :=
+  (if Nat.eqb (length ts) 12 then [] else [WrongCount]) ++
+  (if forallb known ts then [] else [UnknownWord]) ++
+  (if Nat.eqb (length ts) 12 && forallb known ts then
+     let ws := map idx ts in
+     let e := entropy_of ws in
+     if cks (e / 2 ^ 64) (e mod 2 ^ 64) =? nibble_of ws then [] else [BadChecksum]
+   else []).
+
+(** the defect an error of [decodeBIP39Phrase] names *)
+Definition named_defect (r : dres) : option defect :=
+  match r with
+  | DOk _ _ => None
+  | DErrCount => Some WrongCount
+  | DErrWord => Some UnknownWord
+  | DErrChecksum => Some BadChecksum
+  end.
